@@ -1106,7 +1106,7 @@ MANIFEST = dict(
         "returned, as terms over (T, lobe, len, k), for the 12 valuations of window type / valid-only / in_lens given "
         "(omitted lengths must mean 'every sequence has length T'). All three policies (the 'ali' segment arithmetic included) and the token "
         "chunker are first decided as value tables: interpreted over exact tensors and compared with an oracle written from the documentation "
-        "(240 + 8 rows); the symbolic comparison above is the fallback. Necessary conditions of C10 on a finite grid."),
+        "(240 + 8 rows); the symbolic comparison above is the fallback. Necessary conditions of C10 on a finite grid. The chunking worker's head is interpreted until both constructors are called: valid_only == (pad_mode is None) and the chunker's mode for pad_mode in {None, reflect, replicate}."),
     level_note="Trusted: python ast; torch rank semantics of the closed transformer set in rules/rank.py. F11 (gather on "
                "a rank-1 column), F21 (the 'ali' policy raised whenever a sequence fills the time axis) and F24 (an extra 'fixed' symmetric window when in_lens is omitted) were found and repaired; F5 (boundaries shifted by "
                "+ slice start) is a known finding because tests/test_feats.py encodes the same arithmetic.",
